@@ -16,8 +16,8 @@ use serde_json::json;
 use std::collections::{BTreeMap, BTreeSet};
 use std::sync::Mutex;
 
-const VALUES: [&str; 6] = ["one", "two words", "9 lives", "", "  padded", "ünï-value"];
-const DBS: [(&str, &str); 3] = [("d1", "none"), ("d2", "newer"), ("d3", "arbiter")];
+pub const VALUES: [&str; 6] = ["one", "two words", "9 lives", "", "  padded", "ünï-value"];
+pub const DBS: [(&str, &str); 3] = [("d1", "none"), ("d2", "newer"), ("d3", "arbiter")];
 
 #[derive(Clone, Debug)]
 pub enum Op {
@@ -135,7 +135,7 @@ pub fn directed_scenarios() -> Vec<Scenario> {
     out
 }
 
-fn render(op: &Op) -> (usize, String) {
+pub fn render(op: &Op) -> (usize, String) {
     match op {
         Op::CreateDb(d) => (*d, format!("create-db {} tok-{} {}", DBS[*d].0, DBS[*d].0, DBS[*d].1)),
         Op::Set(d, k, v) => (*d, format!("set {} {}", k, VALUES[*v])),
@@ -172,7 +172,7 @@ fn issue_as(c: &mut Cluster, session: &str, ops: &[Op], wait: bool, nodes: usize
     }
 }
 
-type Db = (String, String, BTreeMap<String, (String, i32)>); // token, strategy, keys
+pub type Db = (String, String, BTreeMap<String, (String, i32)>); // token, strategy, keys
 
 fn snapshot_of(c: &Cluster, i: usize) -> BTreeMap<String, Db> {
     let dbs = c.dbs(i);
@@ -188,6 +188,99 @@ fn snapshot_of(c: &Cluster, i: usize) -> BTreeMap<String, Db> {
         out.insert(n.clone(), (token, db.metadata.consensus_strategy.to_string(), keys));
     }
     out
+}
+
+
+/// In which part of the history was a (database, key) last written?
+pub fn last_phase_of(sc: &Scenario) -> BTreeMap<(String, String), &'static str> {
+    let mut last_phase: BTreeMap<(String, String), &'static str> = BTreeMap::new();
+    for (phase, ops) in [("before-departure", &sc.before), ("while-away", &sc.away), ("during-sync", &sc.during)] {
+        for op in ops.iter() {
+            match op {
+                Op::Set(d, k, _) | Op::Remove(d, k) | Op::Inc(d, k) => {
+                    last_phase.insert((DBS[*d].0.to_string(), k.clone()), phase);
+                }
+                Op::CreateUser(d) => {
+                    last_phase.insert((DBS[*d].0.to_string(), format!("$$user_u{}", d)), phase);
+                }
+                Op::SetPerm(d) => {
+                    last_phase.insert((DBS[*d].0.to_string(), format!("$$permission_$u{}", d)), phase);
+                }
+                _ => {}
+            }
+        }
+    }
+    last_phase
+}
+
+/// Compares the joiner's databases with the primary's; appends (problem, detail); returns the number of keys compared.
+/// Used by the simulated cluster (Engine N) and by the real-process cross-check (Engine R).
+pub fn compare_resync(sc: &Scenario, prim: &BTreeMap<String, Db>, join: &BTreeMap<String, Db>, last_phase: &BTreeMap<(String, String), &'static str>, problems: &mut Vec<(String, String)>) -> u64 {
+    let mut keys_compared = 0u64;
+    for (db, (ptok, pstrat, pkeys)) in prim {
+        let Some((jtok, jstrat, jkeys)) = join.get(db) else {
+            let created = [("before-departure", &sc.before), ("while-away", &sc.away), ("during-sync", &sc.during)].iter().find(|(_, ops)| ops.iter().any(|o| matches!(o, Op::CreateDb(d) if DBS[*d].0 == db.as_str()))).map(|x| x.0).unwrap_or("?");
+            problems.push((format!("database-missing-on-joiner/created:{}", created), db.clone()));
+            continue;
+        };
+        if jtok != ptok {
+            problems.push(("database-token-differs".into(), format!("{}: {:?} vs {:?}", db, ptok, jtok)));
+        }
+        if jstrat != pstrat {
+            problems.push(("conflict-strategy-differs".into(), format!("{}: {} vs {}", db, pstrat, jstrat)));
+        }
+        let all: BTreeSet<&String> = pkeys.keys().chain(jkeys.keys()).collect();
+        for k in all {
+            keys_compared += 1;
+            let (pv, jv) = (pkeys.get(k), jkeys.get(k));
+            if pv == jv {
+                continue;
+            }
+            let class = match (pv, jv) {
+                (Some(_), None) => "key-missing-on-joiner".to_string(),
+                (None, Some(j)) => if j.0 == "<Empty>" { "removed-key-live-as-<Empty>-on-joiner".to_string() } else { "removed-key-still-live-on-joiner".to_string() },
+                (Some(p), Some(j)) if p.0 != j.0 => {
+                    if j.0.is_empty() { "value-arrived-empty".to_string() } else if p.0.ends_with(&j.0) && p.0.contains(' ') { "value-lost-its-first-word".to_string() } else { "value-differs".to_string() }
+                }
+                _ => "version-differs".to_string(),
+            };
+            let phase = last_phase.get(&(db.clone(), k.to_string())).cloned().unwrap_or("never-written-by-a-client");
+            problems.push((format!("{}/last-written:{}", class, phase), format!("{} key {}: primary {:?} joiner {:?}", db, k, pv, jv)));
+        }
+    }
+    for db in join.keys() {
+        if !prim.contains_key(db) {
+            problems.push(("joiner-has-a-database-the-primary-does-not".into(), db.clone()));
+        }
+    }
+    keys_compared
+}
+
+/// The signature under which a resynchronisation problem is reported (and matched against the known findings).
+pub fn resync_signature(sc: &Scenario, sync_kind: &str, problem: &str) -> serde_json::Value {
+    let concurrent = !sc.during.is_empty();
+    // value / version differences are one family (the catch-up line format loses the value's first word or the whole value);
+    // with client operations racing the synchronisation the phase detail is dropped as well
+    let mut family = problem.to_string();
+    for f in ["value-arrived-empty", "value-lost-its-first-word", "value-differs", "version-differs"] {
+        if problem.starts_with(f) {
+            family = format!("value-or-version-differs{}", if concurrent { String::new() } else { problem[f.len()..].to_string() });
+        }
+    }
+    if concurrent {
+        if let Some(p) = family.find('/') {
+            family.truncate(p);
+        }
+    }
+    // whether the primary changed while the joiner was away is part of the replay, not of the signature: the known
+    // catch-up format defects are the same code on any primary
+    // a joiner that left with a valid operation log and still went through a full sync is its own situation: the known
+    // weaknesses of the full sync (it never removes, ...) are not excused there
+    if sc.leaves_with_valid_oplog && sync_kind == "full" {
+        json!({"check": "resync", "sync": sync_kind, "operations_during_sync": concurrent, "problem": family, "joiner_left_with_a_valid_operation_log": true})
+    } else {
+        json!({"check": "resync", "sync": sync_kind, "operations_during_sync": concurrent, "problem": family})
+    }
 }
 
 pub struct Stats {
@@ -263,24 +356,7 @@ pub fn run_scenario(sc: &Scenario, seed0: u64, v: &Verdicts, st: &Mutex<Stats>) 
         }
     }
     let q4 = c.run_until_quiet();
-    // in which part of the history was a (database, key) last written?
-    let mut last_phase: BTreeMap<(String, String), &'static str> = BTreeMap::new();
-    for (phase, ops) in [("before-departure", &sc.before), ("while-away", &sc.away), ("during-sync", &sc.during)] {
-        for op in ops.iter() {
-            match op {
-                Op::Set(d, k, _) | Op::Remove(d, k) | Op::Inc(d, k) => {
-                    last_phase.insert((DBS[*d].0.to_string(), k.clone()), phase);
-                }
-                Op::CreateUser(d) => {
-                    last_phase.insert((DBS[*d].0.to_string(), format!("$$user_u{}", d)), phase);
-                }
-                Op::SetPerm(d) => {
-                    last_phase.insert((DBS[*d].0.to_string(), format!("$$permission_$u{}", d)), phase);
-                }
-                _ => {}
-            }
-        }
-    }
+    let last_phase = last_phase_of(sc);
     let mut problems: Vec<(String, String)> = vec![];
     match (&q3, &q4) {
         (Outcome::Quiet(_), Outcome::Quiet(_)) => {}
@@ -334,43 +410,7 @@ pub fn run_scenario(sc: &Scenario, seed0: u64, v: &Verdicts, st: &Mutex<Stats>) 
         }
     }
     // ---- dataset comparison
-    let mut keys_compared = 0u64;
-    for (db, (ptok, pstrat, pkeys)) in &prim {
-        let Some((jtok, jstrat, jkeys)) = join.get(db) else {
-            let created = [("before-departure", &sc.before), ("while-away", &sc.away), ("during-sync", &sc.during)].iter().find(|(_, ops)| ops.iter().any(|o| matches!(o, Op::CreateDb(d) if DBS[*d].0 == db.as_str()))).map(|x| x.0).unwrap_or("?");
-            problems.push((format!("database-missing-on-joiner/created:{}", created), db.clone()));
-            continue;
-        };
-        if jtok != ptok {
-            problems.push(("database-token-differs".into(), format!("{}: {:?} vs {:?}", db, ptok, jtok)));
-        }
-        if jstrat != pstrat {
-            problems.push(("conflict-strategy-differs".into(), format!("{}: {} vs {}", db, pstrat, jstrat)));
-        }
-        let all: BTreeSet<&String> = pkeys.keys().chain(jkeys.keys()).collect();
-        for k in all {
-            keys_compared += 1;
-            let (pv, jv) = (pkeys.get(k), jkeys.get(k));
-            if pv == jv {
-                continue;
-            }
-            let class = match (pv, jv) {
-                (Some(_), None) => "key-missing-on-joiner".to_string(),
-                (None, Some(j)) => if j.0 == "<Empty>" { "removed-key-live-as-<Empty>-on-joiner".to_string() } else { "removed-key-still-live-on-joiner".to_string() },
-                (Some(p), Some(j)) if p.0 != j.0 => {
-                    if j.0.is_empty() { "value-arrived-empty".to_string() } else if p.0.ends_with(&j.0) && p.0.contains(' ') { "value-lost-its-first-word".to_string() } else { "value-differs".to_string() }
-                }
-                _ => "version-differs".to_string(),
-            };
-            let phase = last_phase.get(&(db.clone(), k.to_string())).cloned().unwrap_or("never-written-by-a-client");
-            problems.push((format!("{}/last-written:{}", class, phase), format!("{} key {}: primary {:?} joiner {:?}", db, k, pv, jv)));
-        }
-    }
-    for db in join.keys() {
-        if !prim.contains_key(db) {
-            problems.push(("joiner-has-a-database-the-primary-does-not".into(), db.clone()));
-        }
-    }
+    let keys_compared = compare_resync(sc, &prim, &join, &last_phase, &mut problems);
     let shape = format!("{}{}|{}|{}|b{}a{}d{}|{}", sync_kind, if prim_idx != 0 { "/new-primary" } else { "" }, if sc.clean_stop { "clean" } else { "kill" }, if sc.wipe { "wiped" } else { "disk" }, sc.before.len(), sc.away.len(), sc.during.len(), n);
     {
         let mut s = st.lock().unwrap();
@@ -390,28 +430,7 @@ pub fn run_scenario(sc: &Scenario, seed0: u64, v: &Verdicts, st: &Mutex<Stats>) 
     let mut seen = BTreeSet::new();
     let concurrent = !sc.during.is_empty();
     for (problem, detail) in problems {
-        // value / version differences are one family (the catch-up line format loses the value's first word or the whole value);
-        // with client operations racing the synchronisation the phase detail is dropped as well
-        let mut family = problem.clone();
-        for f in ["value-arrived-empty", "value-lost-its-first-word", "value-differs", "version-differs"] {
-            if problem.starts_with(f) {
-                family = format!("value-or-version-differs{}", if concurrent { String::new() } else { problem[f.len()..].to_string() });
-            }
-        }
-        if concurrent {
-            if let Some(p) = family.find('/') {
-                family.truncate(p);
-            }
-        }
-        // whether the primary changed while the joiner was away is part of the replay, not of the signature: the known
-        // catch-up format defects are the same code on any primary
-        // a joiner that left with a valid operation log and still went through a full sync is its own situation: the known
-        // weaknesses of the full sync (it never removes, ...) are not excused there
-        let sig = if sc.leaves_with_valid_oplog && sync_kind == "full" {
-            json!({"check": "resync", "sync": sync_kind, "operations_during_sync": concurrent, "problem": family, "joiner_left_with_a_valid_operation_log": true})
-        } else {
-            json!({"check": "resync", "sync": sync_kind, "operations_during_sync": concurrent, "problem": family})
-        };
+        let sig = resync_signature(sc, sync_kind, &problem);
         if !seen.insert(sig.to_string()) {
             continue;
         }
@@ -463,6 +482,9 @@ pub fn run(tier: &str) -> i32 {
     ev.set("keys_compared_joiner_vs_primary", json!(s.keys_compared));
     ev.set("inconclusive_runs", json!(s.inconclusive));
     ev.set("known_findings_seen", json!(v.known_seen()));
+    // Engine R: the same oracle over real nun-db processes (src/bin/main.rs, TCP links, signals, timer thread)
+    let real = crate::realparts::c05_real(&v, if thorough { 96 } else { 8 }, seed());
+    ev.set("real_processes", real.to_json());
     ev.violations = v.violation_count();
     ev.assumptions = vec![
         "Engine N transport emulation; the joiner restarts with a larger process id (youngest) and joins a quiet cluster".into(),
@@ -471,6 +493,10 @@ pub fn run(tier: &str) -> i32 {
     ev.write();
     cleanup_scratch();
     let code = v.finish(tier);
+    if code == 0 && real.runs > 0 && (real.runs - real.inconclusive) * 2 < real.runs {
+        println!("INCONCLUSIVE property=C05 reason=the real-process part could judge only {} of {} runs", real.runs - real.inconclusive, real.runs);
+        return 2;
+    }
     if code == 0 && (s.shapes.len() < 80 || s.full_syncs < 20 || s.incremental_syncs < 20 || s.inconclusive > s.runs / 10 + 3) {
         println!("INCONCLUSIVE property=C05 reason=coverage floor not met ({} shapes, {} full, {} incremental, {} inconclusive)", s.shapes.len(), s.full_syncs, s.incremental_syncs, s.inconclusive);
         return 2;
